@@ -58,7 +58,10 @@ def _snapshot(d):
     return out
 
 
-def _once(overwrite, multifile, target_exists, sub_exists, from_subfiles, fault, bad_value, fmt):
+SUB_REFS = {"sibling": "g.yaml", "subdir": "parts/g.yaml", "parent-dir": "../shared/g.yaml"}
+
+
+def _once(overwrite, multifile, target_exists, sub_exists, from_subfiles, fault, bad_value, fmt, sub_ref="sibling"):
     from jsonargparse import ArgumentError, strip_meta
 
     from ..shapes import same
@@ -69,19 +72,22 @@ def _once(overwrite, multifile, target_exists, sub_exists, from_subfiles, fault,
         src, out = os.path.join(root, "src"), os.path.join(root, "out")
         os.makedirs(src)
         os.makedirs(out)
-        with open(os.path.join(src, "g.yaml"), "w") as f:
-            f.write("k: 11\nr: 2.5\n")
+        gref = SUB_REFS[sub_ref]
+        os.makedirs(os.path.dirname(os.path.join(src, gref)), exist_ok=True)
+        with open(os.path.join(src, gref), "w") as f:
+            f.write("k: 10\nr: 2.5\n")
         with open(os.path.join(src, "x.yaml"), "w") as f:
             f.write("class_path: vf.fixtures.Sub1\ninit_args:\n  w: 4\n")
         with open(os.path.join(src, "h.json"), "w") as f:
             f.write('{"lim": 2.5, "n": 1}')
         with open(os.path.join(src, "main.yaml"), "w") as f:
-            f.write("a: 3\ng: g.yaml\nx: x.yaml\nh: h.json\n")
+            f.write(f"a: 3\ng: {gref}\nx: x.yaml\nh: h.json\n")
         p = _parser()
         if from_subfiles:
             cfg = p.parse_path(os.path.join(src, "main.yaml"))
         else:
-            cfg = p.parse_object({"a": 3, "g": {"k": 11, "r": 2.5}, "x": {"class_path": "vf.fixtures.Sub1", "init_args": {"w": 4}}, "h": {"lim": 2.5, "n": 1}})
+            cfg = p.parse_object({"a": 3, "g": {"k": 10, "r": 2.5}, "x": {"class_path": "vf.fixtures.Sub1", "init_args": {"w": 4}}, "h": {"lim": 2.5, "n": 1}})
+        cfg["g.k"] = 11  # an edit made after loading: the saved files must hold it, wherever the section was loaded from
         expected = strip_meta(cfg).clone()
         if fault == "invalid":
             cfg["a"] = bad_value
@@ -157,6 +163,7 @@ def schedule(fmt="yaml"):
         sub_exists = S.flag("sub_exists")
         from_subfiles = S.flag("from_subfiles")
         fault = S.pick("fault", FAULTS)
+        sub_ref = S.pick("sub_ref", sorted(SUB_REFS)) if (from_subfiles and fault == "none") else "sibling"
         bad = S.int("bad_value", -2, 0) if fault == "invalid" else 0
         if fault == "invalid":
             # concretise the solver's choice inside the window (files need concrete text)
@@ -168,11 +175,105 @@ def schedule(fmt="yaml"):
                 bad = 0
         S.note("fault:" + fault)
         if S.replaying is not None:
-            return _once(overwrite, multifile, target_exists, sub_exists, from_subfiles, fault, bad, fmt)
+            return _once(overwrite, multifile, target_exists, sub_exists, from_subfiles, fault, bad, fmt, sub_ref)
         from crosshair.tracers import NoTracing
 
         with NoTracing():
-            return _once(overwrite, multifile, target_exists, sub_exists, from_subfiles, fault, bad, fmt)
+            return _once(overwrite, multifile, target_exists, sub_exists, from_subfiles, fault, bad, fmt, sub_ref)
+
+    return harness
+
+
+def _dict_only_once(overwrite, target_exists, sub_exists, fault, fmt):
+    """A configuration whose only sub-file belongs to a dict-valued argument (no Namespace-valued sub-file anywhere)."""
+    from typing import Any, Dict
+
+    from jsonargparse import ActionConfigFile, ArgumentParser, strip_meta
+
+    from ..shapes import same
+
+    def parser():
+        p = ArgumentParser(exit_on_error=False)
+        p.add_argument("--cfg", action=ActionConfigFile)
+        p.add_argument("--table", type=Dict[str, int], enable_path=True)
+        p.add_argument("--extra", type=Any, default=None)
+        p.add_argument("--n", type=int, default=0)
+        return p
+
+    root = tempfile.mkdtemp(prefix="c18d_")
+    cwd = os.getcwd()
+    try:
+        src, out = os.path.join(root, "src"), os.path.join(root, "out")
+        os.makedirs(src)
+        os.makedirs(out)
+        with open(os.path.join(src, "table.yaml"), "w") as f:
+            f.write("a: 1\nb: 2\n")
+        with open(os.path.join(src, "main.yaml"), "w") as f:
+            f.write("table: table.yaml\nn: 2\n")
+        p = parser()
+        cfg = p.parse_path(os.path.join(src, "main.yaml"))
+        cfg.table["a"] = 100
+        expected = strip_meta(cfg).clone()
+        if fault == "unserialisable":
+            cfg.extra = object()
+        elif fault == "invalid":
+            cfg.n = "not-an-int"
+        target = os.path.join(out, "main.yaml" if fmt == "yaml" else "main.json")
+        if target_exists:
+            with open(target, "w") as f:
+                f.write("OLD MAIN CONTENT\n")
+        if sub_exists:
+            with open(os.path.join(out, "table.yaml"), "w") as f:
+                f.write("OLD SUB CONTENT\n")
+        before = _snapshot(out)
+        raised = None
+        try:
+            p.save(cfg, target, format=fmt, overwrite=overwrite, multifile=True)
+        except Exception as ex:
+            raised = ex
+        after = _snapshot(out)
+        must_refuse = (not overwrite) and (target_exists or sub_exists)
+        must_fail = fault != "none"
+        if (must_refuse or must_fail) and raised is None:
+            return Fail("save:succeeded-although-it-must-fail", refuse=must_refuse, fault=fault, layout="dict-only")
+        if raised is not None and not (must_refuse or must_fail):
+            return Fail("save:failed-on-a-valid-configuration", exc=type(raised).__name__, msg=str(raised)[:200], layout="dict-only")
+        if must_fail:
+            if after != before:
+                return Fail("save:failed-but-files-changed", fault=fault, layout="dict-only", changed=[k for k in set(before) | set(after) if before.get(k) != after.get(k)])
+            return True
+        if must_refuse:
+            for k, v in before.items():
+                if after.get(k) != v:
+                    return Fail("save:refused-overwrite-but-existing-file-changed", file=k, layout="dict-only")
+            return True
+        back = strip_meta(parser().parse_path(target)).clone()
+        for ns in (back, expected):
+            ns.pop("cfg", None)
+        r = same(expected, back)
+        if r:
+            return Fail("save:saved-path-parses-to-different-configuration", where=r, layout="dict-only")
+        return True
+    finally:
+        os.chdir(cwd)
+        shutil.rmtree(root, ignore_errors=True)
+
+
+def dict_only(fmt="yaml"):
+    _dict_only_once(True, False, False, "none", fmt)
+
+    def harness():
+        overwrite = S.flag("overwrite")
+        target_exists = S.flag("target_exists")
+        sub_exists = S.flag("sub_exists")
+        fault = S.pick("fault", ["none", "invalid", "unserialisable"])
+        S.note("fault:" + fault)
+        if S.replaying is not None:
+            return _dict_only_once(overwrite, target_exists, sub_exists, fault, fmt)
+        from crosshair.tracers import NoTracing
+
+        with NoTracing():
+            return _dict_only_once(overwrite, target_exists, sub_exists, fault, fmt)
 
     return harness
 
@@ -187,9 +288,12 @@ def main(rep, tier):
         "an invalid value inside a section that is written to a sub-file; I/O errors in the middle of a write are outside the statement",
         "a refusal to overwrite must leave every pre-existing file byte-identical (a sub-file refusal may leave an earlier, newly created sub-file behind)",
         "real files in a per-path temp directory; the schedule is solver-chosen, the body runs outside the tracer",
+        "sub-file references: a sibling name, a sub-directory ('parts/g.yaml') and a parent directory ('../shared/g.yaml'); an edit made after loading must be in the saved files",
+        "layout 'dict-only': the only sub-file belongs to a Dict[str,int] argument with enable_path (no Namespace-valued sub-file)",
     ]
     fmts = ["yaml", "json"] if tier == "quick" else ["yaml", "json", "json_indented"]
-    results = run_jobs([dict(module="c18", func="schedule", kwargs=dict(fmt=f), timeout=600) for f in fmts])
+    results = run_jobs([dict(module="c18", func="schedule", kwargs=dict(fmt=f), timeout=600) for f in fmts]
+                       + [dict(module="c18", func="dict_only", kwargs=dict(fmt=f), timeout=300) for f in fmts])
     fails = absorb(rep, results, require_tags=tuple("fault:" + f for f in FAULTS))
     groups = {}
     for cls, samples in fails.items():
@@ -199,7 +303,7 @@ def main(rep, tier):
     for (cls, multifile, fault), samples in groups.items():
         reported = False
         for smp in samples:
-            payload = dict(module="c18", func="schedule", kwargs=smp["kwargs"], ordered=smp["values"].get("__order__", []))
+            payload = dict(module="c18", func=smp["harness"], kwargs=smp["kwargs"], ordered=smp["values"].get("__order__", []))
             r = run_native("ch", "replay_path", payload)
             vals = dict(multifile=multifile, fault=fault, info=json.dumps(smp["info"], default=repr))
             if not r.get("reproduced"):
